@@ -1204,7 +1204,7 @@ fn c12_probe(
         for hint in 0..TREE_FRAMES / 64 {
             sut.bufs.restore(&base);
             let row = llfree::verif::frame_row(FrameId(hint * 64));
-            let r = crate::common::catch(|| a.lower.get(row, order, None));
+            let r = crate::common::catch_call(|| a.lower.get(row, order, None));
             evals += 1;
             let mut problem = None;
             match r {
